@@ -193,7 +193,7 @@ func checkC14(p *Program, r *Report) {
 		"R3 every runInfoStruct is a local allocation that does not escape to a global, a channel or a go statement. " +
 		"R4 the import handler uses the package tables only as range operands and re-binds each entry in an environment created there. " +
 		"R5 every reflect.Value kept in a package-level variable (or element) is built by a constructor that yields a non-addressable Value; addressable ones are shared mutable storage that & and *p = v could reach.")
-	r.Explain("R6 a deep copy of an environment (the way a host isolates runs that start from one template) recurses with itself over the whole parent chain: no scope of the original is shared with the copy.")
+	r.Explain("R7 every place that builds a per-run record initialises the same set of fields. R6 a deep copy of an environment (the way a host isolates runs that start from one template) recurses with itself over the whole parent chain: no scope of the original is shared with the copy.")
 	r.Assume("determinism of host functions, map iteration order and goroutine scheduling are outside the statement")
 	r.Exhaustive = true
 
@@ -258,6 +258,7 @@ func checkC14(p *Program, r *Report) {
 	c14Globals(p, r)
 	c14RunInfo(p, r)
 	c14Import(p, r)
+	c14RecordLiterals(p, r)
 	// R6: snapshots used to isolate runs cover the whole scope chain
 	if em, err := buildEnvModel(p); err != nil {
 		r.Undecided("C14.R6", "model", "env", err.Error())
@@ -772,4 +773,64 @@ func (m *envModel) isFreshResult2(v ssa.Value) bool {
 	}
 	callee := staticCallee(c)
 	return callee != nil && callee.Pkg == m.sp && m.returnsFresh(callee, map[*ssa.Function]bool{})
+}
+
+// c14RecordLiterals (R7): every place that builds a per-run record initialises the same fields: a field added to the record and
+// set for the top-level run only (or for function invocations only) is state one kind of run has and the other silently lacks.
+func c14RecordLiterals(p *Program, r *Report) {
+	m, err := buildVMModel(p)
+	if err != nil {
+		return
+	}
+	type lit struct {
+		fn     *ssa.Function
+		al     *ssa.Alloc
+		fields map[string]bool
+	}
+	var lits []lit
+	for _, fn := range m.fns {
+		for _, b := range fn.Blocks {
+			for _, in := range b.Instrs {
+				al, ok := in.(*ssa.Alloc)
+				if !ok || !m.isRI(al.Type()) {
+					continue
+				}
+				fs := map[string]bool{}
+				for _, ref := range *al.Referrers() {
+					fa, ok := ref.(*ssa.FieldAddr)
+					if !ok {
+						continue
+					}
+					// initialisation: stores in the allocating block, before the record is used by a call
+					for _, r2 := range *fa.Referrers() {
+						if st, ok := r2.(*ssa.Store); ok && st.Addr == ssa.Value(fa) && st.Block() == al.Block() {
+							fs[fieldOfAddr(fa).Name()] = true
+						}
+					}
+				}
+				lits = append(lits, lit{fn, al, fs})
+			}
+		}
+	}
+	if len(lits) < 2 {
+		r.Undecided("C14.R7", "record literals", "vm", fmt.Sprintf("expected at least two places that build a per-run record, found %d", len(lits)))
+		return
+	}
+	union := map[string]bool{}
+	for _, l := range lits {
+		for f := range l.fields {
+			union[f] = true
+		}
+	}
+	for _, l := range lits {
+		var missing []string
+		for f := range union {
+			if !l.fields[f] {
+				missing = append(missing, f)
+			}
+		}
+		sort.Strings(missing)
+		r.Check(len(missing) == 0, "C14.R7", funcName(l.fn)+"|record initialised like its siblings", p.Pos(l.al.Pos()), fmt.Sprintf("%d fields set, the same as every other record", len(l.fields)),
+			fmt.Sprintf("this record does not set %v, which another place that builds a per-run record does: runs started here silently lack that state", missing))
+	}
 }
